@@ -1219,3 +1219,19 @@ Proof.
     rewrite (Hall e (or_introl eq_refl)). simpl. apply IH. intros x Hx. apply Hall. right. exact Hx. }
   rewrite E1, E2. destruct (add_entries fx3 empty_tree 0 (entries_of 0 cs)); reflexivity.
 Qed.
+
+(* ------------------------------------------------------------------ sequences *)
+
+(** history independence of the model: the answer to the i-th request of a sequence is the answer to that
+    request alone, whatever was served before and after *)
+Lemma serve_seq_independent fx1 fx2 fx5 fx6 fx7 eng es t qs i :
+  nth_error (serve_seq fx1 fx2 fx5 fx6 fx7 eng es t qs) i =
+  option_map (serve fx1 fx2 fx5 fx6 fx7 eng es t) (nth_error qs i).
+Proof.
+  unfold serve_seq. revert i. induction qs as [|q r IH]; intros [|i]; simpl; try reflexivity. apply IH.
+Qed.
+
+Lemma serve_seq_same_request fx1 fx2 fx5 fx6 fx7 eng es t qs1 qs2 i j q :
+  nth_error qs1 i = Some q -> nth_error qs2 j = Some q ->
+  nth_error (serve_seq fx1 fx2 fx5 fx6 fx7 eng es t qs1) i = nth_error (serve_seq fx1 fx2 fx5 fx6 fx7 eng es t qs2) j.
+Proof. intros H1 H2. rewrite !serve_seq_independent, H1, H2. reflexivity. Qed.
